@@ -19,7 +19,7 @@ INT_LANDMARKS = {
     2000: 10 ** 400, -2000: -(10 ** 400),
 }
 INT_LANDMARKS_INV = {v: k for k, v in INT_LANDMARKS.items()}
-FLOAT_LANDMARKS = {100100: float(2 ** 63), -100000: float(-(2 ** 63))}
+FLOAT_LANDMARKS = {100100: float(2 ** 63), -100000: float(-(2 ** 63)), 200000: 1e308, -200000: -1e308}
 FLOAT_LANDMARKS_INV = {v: k for k, v in FLOAT_LANDMARKS.items()}
 
 
@@ -541,27 +541,39 @@ def a_type(tp):
     return _TYPE_NAMES.get(tp, getattr(tp, "__name__", str(tp)))
 
 
-def a_path(path):
+def a_path(path, root=None):
+    """PathHolder -> abstract path; an int operand is a list index unless the container
+    reached so far (walking `root`) is a dict, where it is a key"""
     out = []
+    cur = root
+    known = root is not None
     for op in path:
         operand = op.operand
         if type(op).__name__ != "ItemAccessor":
             raise Unrepresentable("path operator %r" % (op,))
-        if type(operand) is int:
-            out.append({"ix": operand})
-        else:
+        is_key = type(operand) is not int
+        if known and isinstance(cur, dict):
+            is_key = True
+        if is_key:
             out.append({"key": a_value(operand)})
+        else:
+            out.append({"ix": operand})
+        if known:
+            try:
+                cur = cur[operand]
+            except Exception:
+                known = False
     return out
 
 
-def a_error(e):
+def a_error(e, root=None):
     kind = None
     for cls, name in _err_kinds():
         if type(e) is cls:
             kind = name
     if kind is None:
         raise Unrepresentable("error class %r" % (type(e),))
-    r = {"kind": kind, "path": a_path(e.path), "actual": a_value(e.actual_value)}
+    r = {"kind": kind, "path": a_path(e.path, root), "actual": a_value(e.actual_value)}
     if kind == "type":
         r["exp"] = a_type(e.expected_type)
     elif kind == "value":
